@@ -298,6 +298,13 @@ def opaque_call(engine, st, fr, fn, args, kwargs, star, starkw, node):
     if engine.cfg.on_opaque:
         engine.cfg.on_opaque(engine, st, fr, ev)
     engine.interfere(st, "opaque", reentrant=True)
+    nr = getattr(engine.cfg, "opaque_no_raise", None)
+    if nr is not None and nr(engine, st, fr, ev):
+        # assumed contract of this callee: it does not raise (stated where the hook is installed)
+        ret = fresh_any(engine, st, "user_ret")
+        st.trace[-1] = _with(ev, ret=ret.t)
+        yield st, ret
+        return
     st_r = st.copy()
     exc = fresh_exc(engine, st_r, "user_exc")
     st_r.trace[-1] = _with(ev, exc=exc.t)
